@@ -142,6 +142,7 @@ func main() {
 		{"IntFns.lean", genIntFns},
 		{"Skeleton.lean", genSkeleton},
 		{"Guards.lean", genGuards},
+		{"Guards2.lean", genGuards2For(*repo)},
 	}
 	if *jsonOut != "" {
 		b, _ := json.MarshalIndent(genSkeletonOrdered(p), "", " ")
